@@ -27,7 +27,7 @@ pub fn check(tier: Tier) -> Check {
         also_rel: true,
         property: "C04",
         level: "fault_enumeration",
-        rule: "phases {connect(), authorize(), run() idle, run() with one operation of every kind outstanding and a live stream} x inputs {(1) all byte strings up to the stated length over an 18-symbol boundary alphabet (0x00 0x01 0x02 0x03 0x7f 0x80 0xff and one fixed-header byte per server packet type), optionally followed by end-of-stream (strings whose length field announces more than 4 MiB, which the client allocates and zeroes, are delivered by the other input classes instead); all 65536 two-byte prefixes x three tails; (2) for a valid exemplar of every server packet type carrying every property: every truncation, every single-bit flip, every byte replaced by 0x00/0x01/0x7f/0x80/0xff, remaining length set to 0 / +-1 / maximum / over-long / non-minimal, every property spliced into every packet type, every reason byte 0..=255; (3) every packet type at every phase (well-formed, for known and unknown identifiers); (4) end-of-stream and read error at every byte offset in whole-packet and 1-byte chunking, write error at every write; (5) from a session with three subscriptions (streams taken / response kept), a ping, QoS 1 and QoS 2 publishes in every phase outstanding and an unreleased inbound QoS 2 identifier: every bounded continuation by conformant events (streams and responses dropped, operations cancelled, acknowledgements, messages), followed by one or two packets from a menu of every acknowledgement type for every known and an unknown identifier, SUBACK / UNSUBACK for publish identifiers and vice versa, PUBLISH with every QoS and subscription-identifier lists naming live, dropped and unknown subscriptions in several orders, unsolicited PINGRESP / PUBREL / AUTH / CONNACK / DISCONNECT; (6) a long PUBLISH trickled in always-ready 1-byte reads in a child process}; both the overflow-checked and the wrapping-arithmetic build; non-trivial = the input made a call return an error".into(),
+        rule: "phases {connect(), authorize(), run() idle, run() with one operation of every kind outstanding and a live stream} x inputs {(1) all byte strings up to the stated length over an 18-symbol boundary alphabet (0x00 0x01 0x02 0x03 0x7f 0x80 0xff and one fixed-header byte per server packet type), optionally followed by end-of-stream (strings whose length field announces more than 4 MiB, which the client allocates and zeroes, are delivered by the other input classes instead); all 65536 two-byte prefixes x three tails; (2) for a valid exemplar of every server packet type carrying every property: every truncation, every single-bit flip, every byte replaced by 0x00/0x01/0x7f/0x80/0xff, remaining length set to 0 / +-1 / maximum / over-long / non-minimal, every property spliced into every packet type, every reason byte 0..=255; (3) every packet type at every phase (well-formed, for known and unknown identifiers); (4) end-of-stream and read error at every byte offset in whole-packet and 1-byte chunking, write error (or Ok(0)) at every write, a transient read error at every byte offset followed by the rest of the input - each for six io::ErrorKinds (ConnectionReset, WouldBlock, Interrupted, UnexpectedEof, TimedOut, Other); (5) from a session with three subscriptions (streams taken / response kept), a ping, QoS 1 and QoS 2 publishes in every phase outstanding and an unreleased inbound QoS 2 identifier: every bounded continuation by conformant events (streams and responses dropped, operations cancelled, acknowledgements, messages), followed by one or two packets from a menu of every acknowledgement type for every known and an unknown identifier, SUBACK / UNSUBACK for publish identifiers and vice versa, PUBLISH with every QoS and subscription-identifier lists naming live, dropped and unknown subscriptions in several orders, unsolicited PINGRESP / PUBREL / AUTH / CONNACK / DISCONNECT; (6) a long PUBLISH trickled in always-ready 1-byte reads in a child process}; both the overflow-checked and the wrapping-arithmetic build; non-trivial = the input made a call return an error".into(),
         assumptions: vec![
             "the documented assertion on brokers without subscription identifier support is exempt".into(),
             "which error is returned is unconstrained".into(),
@@ -47,6 +47,15 @@ fn lenient(sys: &mut Sys) {
 }
 
 pub const N_PHASES: usize = 4;
+
+pub const ERR_KINDS: [std::io::ErrorKind; 6] = [
+    std::io::ErrorKind::ConnectionReset,
+    std::io::ErrorKind::WouldBlock,
+    std::io::ErrorKind::Interrupted,
+    std::io::ErrorKind::UnexpectedEof,
+    std::io::ErrorKind::TimedOut,
+    std::io::ErrorKind::Other,
+];
 
 /// bring the client into phase `ph`; afterwards the model is no longer consulted
 pub fn enter_phase(sys: &mut Sys, ph: usize) {
@@ -612,10 +621,32 @@ pub fn scenario(name: &str, params: &Value) -> Scenario {
             let exs = exemplars();
             Box::new(move |chz, ex| {
                 let ph = chz.choose(N_PHASES);
-                let mode = chz.choose(2);
+                let mode = chz.choose(3);
                 let mut sys = Sys::new("C04", &name, chz);
                 sys.params = params.clone();
-                if mode == 0 {
+                // the kind of io::Error the transport reports must not matter
+                let kind = ERR_KINDS[chz.choose(ERR_KINDS.len())];
+                sys.w.set_err_kinds(kind, kind);
+                sys.events.push(format!("io::ErrorKind::{:?}", kind));
+                if mode == 2 {
+                    // a transient read error in the middle of a packet: Err(kind) once, the rest of the
+                    // packet and a PINGRESP are readable afterwards - the call returns an error, or it
+                    // keeps serving and then reads on; it must not sit there with input unread
+                    let e = &exs[chz.choose(exs.len())];
+                    let base = e.encode();
+                    let k = chz.choose(base.len() + 1);
+                    enter_phase(&mut sys, ph);
+                    feed(&mut sys, &base[..k], false);
+                    if !sys.dead {
+                        sys.events.push(format!("TransientReadError({:?}), then the remaining {} bytes and a PINGRESP", kind, base.len() - k));
+                        sys.classes.push("TransientReadError".into());
+                        sys.w.read_error_once(kind);
+                        let mut rest = base[k..].to_vec();
+                        rest.extend(SPacket::Pingresp.encode());
+                        sys.w.deliver(rest);
+                        sys.sync();
+                    }
+                } else if mode == 0 {
                     // end-of-stream / read error at every byte offset of a packet, both chunkings
                     let e = &exs[chz.choose(exs.len())];
                     let base = e.encode();
@@ -630,6 +661,10 @@ pub fn scenario(name: &str, params: &Value) -> Scenario {
                     let k = chz.choose(8) as u64;
                     sys.w.wire.borrow_mut().write_err_after = Some(k);
                     sys.events.push(format!("WriteErrorAfter({} writes)", k));
+                    if kind == std::io::ErrorKind::Other {
+                        // (instead of an error: Ok(0) for every write from the start)
+                        sys.w.wire.borrow_mut().write_zero = k == 0;
+                    }
                     // the model cannot follow a failing transport; only panics / stalls are judged
                     lenient(&mut sys);
                     sys.check_stall = true;
